@@ -183,11 +183,14 @@ Proof.
   unfold read_at; cbn. now rewrite updc_same.
 Qed.
 
-(* the relationship version log holds post-images only: a read between a relationship's
-   creation and its first property update returns the properties current at read time *)
-Lemma edge_read_refuted :
+(* the relationship version log as it was before the repair held post-images only: a read
+   between a relationship's creation and its first property update returned the properties
+   current at read time; the repaired functions answer the same history stably *)
+Lemma edge_read_original_defect :
   let ops1 := [Mvcc.CreateNode []; Mvcc.CreateNode []; Mvcc.CreateEdge 1 2; Tx (Begin RC); Tx (Commit 1)] in
-  let ops2 := [SetEdge 1 0 5] in
-  1 < curv (Mvcc.run ops1) /\
-  read_edge (Mvcc.run (ops1 ++ ops2)) 1 1 <> read_edge (Mvcc.run ops1) 1 1.
-Proof. vm_compute. split; [reflexivity | congruence]. Qed.
+  let s1 := Mvcc.run ops1 in
+  1 < curv s1 /\
+  read_edge_orig (set_edge_orig s1 1 0 5) 1 1 <> read_edge_orig s1 1 1 /\
+  read_edge (Mvcc.run (ops1 ++ [SetEdge 1 0 5])) 1 1 = read_edge s1 1 1 /\
+  read_edge s1 1 1 = Some {| v_ver := 1; v_props := [] |}.
+Proof. vm_compute. repeat split; congruence. Qed.
